@@ -103,9 +103,14 @@ func verifC19_SyncPrefix() {
 	keys := []string{"/p/a", "/p/b", "/q/x"}
 	vals := []string{"v1", "v2"}
 	vStoreKV, vStoreRev, vRevision = map[string]string{}, map[string]int64{}, 1
-	if verifBool("initiallyNonEmpty") {
+	// the store starts empty, with one key or with two keys under the prefix
+	if n := verifChoose("initialKeysUnderThePrefix", 3); n >= 1 {
 		vStoreKV["/p/a"] = "v1"
 		vStoreRev["/p/a"] = 1
+		if n == 2 {
+			vStoreKV["/p/b"] = "v2"
+			vStoreRev["/p/b"] = 1
+		}
 	}
 	vWatchCh = make(chan clientv3.WatchResponse, 8)
 	vTickCh = make(chan time.Time, 8)
@@ -123,7 +128,14 @@ func verifC19_SyncPrefix() {
 	cancels := 0
 	for i := 0; i < writes; i++ {
 		k := keys[verifChoose("write.key", 3)]
-		if verifBool("write.isDelete") {
+		if verifBool("write.deletesEverythingUnderThePrefix") {
+			// one transaction (DeletePrefix, lease revocation): all keys vanish at once
+			if len(history[nh-1]) >= 2 {
+				verifCover("several-keys-vanish-at-once")
+			}
+			delete(vStoreKV, "/p/a")
+			delete(vStoreKV, "/p/b")
+		} else if verifBool("write.isDelete") {
 			delete(vStoreKV, k)
 		} else {
 			vStoreKV[k] = vals[verifChoose("write.value", 2)]
